@@ -226,55 +226,60 @@ def mc_cfg(work, name, over, cfgs="CfgPlain", simulate=False):
 
 
 def model_check_cache(ev, vd, tier, work):
+    """Exhaustive runs (sizes measured in this sandbox, see the labels), simulation at the real constants, and the
+    vacuity guards.  Two TLC processes with two workers each run side by side."""
+    import concurrent.futures as cf
     mod = os.path.join(SPEC, "MC_UnixIoCache.tla")
-    runs = [
-        ("core K=3 D=2 NG=6", dict(), "CfgPlain", 600),
-        ("blksize {1,2} K=3 NG=4", dict(NG=4, BlkSizes="{1,2}", NegSizes="{1,3}", ByteLens="{1,2}"), "CfgPlain", 600),
-        ("faults K=3 NG=4 plain/handler", dict(NG=4, MaxW=3, MaxFaults=1, ZeroFail="TRUE"), "CfgFault", 600),
-        ("write-through + faults K=3 NG=4", dict(NG=4, MaxW=2, MaxFaults=1), "CfgWt", 600),
-        ("force-bounce + faults K=3 NG=4 bs{1,2}", dict(NG=4, BlkSizes="{1,2}", NegSizes="{1,3}", MaxW=2, MaxFaults=1), "CfgBounce", 600),
-        ("cache off/on toggle K=3 NG=5", dict(NG=5, Toggle="TRUE", MaxW=2, MaxFaults=1), "CfgFault", 600),
-    ]
-    if tier == "thorough":
-        runs += [
-            ("core K=4 D=2 NG=7", dict(K=4, NG=7), "CfgPlain", 2400),
-            ("core K=4 D=3 NG=6", dict(K=4, D=3, NG=6), "CfgPlain", 2400),
-            ("all configurations + faults + blksize K=3 NG=4", dict(NG=4, BlkSizes="{1,2}", NegSizes="{1,3}", ByteLens="{1,2}", MaxW=3,
-                                                                MaxFaults=1, Toggle="TRUE", ZeroFail="TRUE"), "CfgAll", 2400),
-            ("faults K=4 NG=5 two faulty calls", dict(K=4, NG=5, MaxW=3, MaxFaults=2), "CfgFault", 2400),
+    small_f = dict(NG=3, K=2, D=1, MaxW=2, MaxFaults=1, ZeroFail="TRUE")
+    if tier == "quick":
+        runs = [
+            ("core K=3 D=2 NG=5", dict(NG=5), "CfgPlain", 900),
+            ("blksize {1,2} K=3 D=2 NG=4", dict(NG=4, BlkSizes="{1,2}", NegSizes="{1,3}", ByteLens="{1,2}"), "CfgPlain", 900),
+            ("device write failures, with and without handler, K=2 D=1 NG=3", small_f, "CfgFault", 900),
         ]
+    else:
+        runs = [
+            ("core K=3 D=2 NG=6", dict(), "CfgPlain", 1800),
+            ("core K=4 D=2 NG=6", dict(K=4), "CfgPlain", 2400),
+            ("blksize {1,2} K=3 D=2 NG=4", dict(NG=4, BlkSizes="{1,2}", NegSizes="{1,3}", ByteLens="{1,2}"), "CfgPlain", 900),
+            ("device write failures, with and without handler, K=3 D=2 NG=4", dict(NG=4, MaxW=2, MaxFaults=1, ZeroFail="TRUE"), "CfgFault", 2400),
+            ("write-through + failures K=3 D=2 NG=4", dict(NG=4, MaxW=2, MaxFaults=1), "CfgWt", 1800),
+            ("force-bounce + failures + blksize {1,2} K=2 D=1 NG=4", dict(NG=4, K=2, D=1, BlkSizes="{1,2}", NegSizes="{1,3}", MaxW=2, MaxFaults=1), "CfgBounce", 1800),
+            ("cache off/on around read-only phases + failures K=3 D=2 NG=4", dict(NG=4, Toggle="TRUE", MaxW=2, MaxFaults=1), "CfgFault", 2400),
+        ]
+    jobs = []
     for label, over, cfgs, tmo in runs:
         cfg = mc_cfg(work, hashlib.sha1(label.encode()).hexdigest()[:8], over, cfgs)
-        r = T.tlc(mod, cfg, workers=WORKERS, timeout=tmo, xmx="4g")
-        ev.add_tlc(r, "UnixIoCache exhaustive: " + label)
-        if r.violated:
-            vd.violation("model:" + r.violated, "UnixIoCache (%s): %s violated -- design-level counterexample" % (label, r.violated),
-                         {"tlc_tail": r.out[-6000:], "cfg": open(cfg).read()})
-            return
-        if not r.ok:
-            die_broken("TLC failed on MC_UnixIoCache (%s): %s\n%s" % (label, r.error, r.out[-1500:]))
-    # the real constants by simulation
-    nsim, depth = (1500, 40) if tier == "quick" else (60000, 50)
-    cfg = mc_cfg(work, "sim", dict(K=8, D=4, NG=16, BlkSizes="{1,2}", NegSizes="{1,3,5}", ByteLens="{1,2}", MaxW=4, MaxFaults=2,
-                                   Toggle="TRUE", ZeroFail="TRUE"), "CfgAll", simulate=True)
-    r = T.tlc(mod, cfg, workers=WORKERS, timeout=1500, simulate=nsim, depth=depth, xmx="4g")
-    ev.add_tlc(r, "UnixIoCache simulation at the real constants K=8 D=4: %d behaviours of depth %d" % (nsim, depth))
-    if r.violated:
-        vd.violation("model:" + r.violated, "UnixIoCache K=8 D=4 simulation: %s violated" % r.violated, {"tlc_tail": r.out[-6000:]})
-        return
-    if not r.ok:
-        die_broken("TLC simulation failed on MC_UnixIoCache: %s\n%s" % (r.error, r.out[-1500:]))
-    # vacuity guard: with the pinned-tree behaviours switched on TLC must find the incoherence
+        jobs.append((label, cfg, dict(workers=2, timeout=tmo, xmx="3g")))
+    nsim, depth = (1200, 40) if tier == "quick" else (60000, 50)
+    simcfg = mc_cfg(work, "sim", dict(K=8, D=4, NG=16, BlkSizes="{1,2}", NegSizes="{1,3,5}", ByteLens="{1,2}", MaxW=4, MaxFaults=2,
+                                      Toggle="TRUE", ZeroFail="TRUE"), "CfgAll", simulate=True)
+    jobs.append(("simulation at the real constants K=8 D=4 NG=16, all configurations: %d behaviours of depth %d" % (nsim, depth), simcfg,
+                 dict(workers=2, timeout=2400, simulate=nsim, depth=depth, xmx="3g")))
+    guards = []
     for dev in ("DevInvalSkipsClean", "DevZeroBypassesCache"):
-        cfg = mc_cfg(work, "lit_" + dev, {dev: "TRUE"})
-        r = T.tlc(mod, cfg, workers=2, timeout=300, xmx="2g")
-        if r.violated not in ("Refines", "Coherent", "DurableAfterFlush"):
-            die_broken("vacuity guard: UnixIoCache with %s=TRUE does not violate Refines/Coherent (%s / %s)" % (dev, r.violated, r.error))
-        ev.cov.setdefault("literal_models_rejected", []).append("%s -> %s after %d states" % (dev, r.violated, r.distinct))
-    # the toggle precondition is needed: without it the literal set_option(cache) semantics is incoherent
-    cfg = mc_cfg(work, "notogglepre", dict(NG=4, Toggle="TRUE", TogglePre="FALSE"))
-    r = T.tlc(mod, cfg, workers=2, timeout=300, xmx="2g")
-    ev.cov["toggle_without_precondition"] = "violates %s after %d states (DESIGN section 7 row 3: outside the property's configurations)" % (r.violated, r.distinct)
+        guards.append((dev, mc_cfg(work, "lit_" + dev, {dev: "TRUE", "NG": 4}), dict(workers=1, timeout=300, xmx="2g")))
+    d3 = dict(small_f); d3["DevWriteEvictErrLost"] = "TRUE"
+    guards.append(("DevWriteEvictErrLost", mc_cfg(work, "lit_evict", d3, "CfgFault"), dict(workers=1, timeout=300, xmx="2g")))
+    guards.append(("TogglePre", mc_cfg(work, "notogglepre", dict(NG=4, Toggle="TRUE", TogglePre="FALSE")), dict(workers=1, timeout=300, xmx="2g")))
+    with cf.ThreadPoolExecutor(max_workers=2) as ex:
+        futs = [(label, cfg, ex.submit(T.tlc, mod, cfg, **kw)) for label, cfg, kw in jobs]
+        gfuts = [(dev, ex.submit(T.tlc, mod, cfg, **kw)) for dev, cfg, kw in guards]
+        for label, cfg, fu in futs:
+            r = fu.result()
+            ev.add_tlc(r, "UnixIoCache: " + label)
+            if r.violated:
+                vd.violation("model:" + r.violated, "UnixIoCache (%s): %s violated -- design-level counterexample" % (label, r.violated),
+                             {"tlc_tail": r.out[-6000:], "cfg": open(cfg).read()})
+            elif not r.ok:
+                die_broken("TLC failed on MC_UnixIoCache (%s): %s\n%s" % (label, r.error, r.out[-1500:]))
+        # vacuity guards: with a pinned-tree behaviour switched on (or the toggle precondition dropped) TLC must find the incoherence
+        for dev, fu in gfuts:
+            r = fu.result()
+            if r.violated not in ("Refines", "Coherent", "DurableAfterFlush", "ErrorReported", "RefinesIoChannel"):
+                die_broken("vacuity guard: UnixIoCache with %s does not violate the property (%s / %s)" % (dev, r.violated, r.error))
+            ev.cov.setdefault("deviating_models_rejected", []).append("%s -> %s after %d states" % (dev, r.violated, r.distinct))
+    ev.cov["exhaustive"] = True
 
 
 # ------------------------------------------------------------------------------------------------ conformance
@@ -378,6 +383,157 @@ def conformance_cache(ev, vd, tier, work, drv):
         ev.sample({"configuration": faulty[0]["cfg"], "fail_write_nth_count": faulty[0]["fail"], "ops": faulty[0]["ops"][:14]})
 
 
+# ------------------------------------------------------------------------------------------------ thread part
+BL_INV = ["PartitionExact", "MutualExclusion", "LockHeld", "LoadedOnce", "ResultScheduleIndependent"]
+
+
+def bl_cfg(work, name, spec, consts, invariants, props=()):
+    path = os.path.join(work, "BL_%s.cfg" % name)
+    L = ["SPECIFICATION %s" % spec, "CONSTANTS"] + ["  %s = %s" % kv for kv in consts.items()]
+    L += ["INVARIANT %s" % i for i in invariants] + ["PROPERTY %s" % q for q in props] + ["CHECK_DEADLOCK FALSE"]
+    with open(path, "w") as f:
+        f.write("\n".join(L) + "\n")
+    return path
+
+
+def setof(xs):
+    return "{" + ", ".join(str(x) for x in xs) + "}"
+
+
+def model_check_threads(ev, vd, tier, work):
+    import concurrent.futures as cf
+    mod = os.path.join(SPEC, "BitmapLoad.tla")
+    base = dict(MaxT=3, UseLock="TRUE", Gs="{1, 2, 4, 5, 6}", Ns="{1, 2, 3}", Flexes="{1, 2}", Kinds="{1, 2}", BadSets="{{}, {1}}")
+    jobs = [("all interleavings, G in {1,2,4,5,6}, n <= 3, flex in {1,2}, 1-2 bitmap kinds, fair termination",
+             bl_cfg(work, "mc", "FairSpec", base, BL_INV, ["Termination"]), dict(workers=2, timeout=1200, xmx="3g"))]
+    if tier == "thorough":
+        big = dict(MaxT=4, UseLock="TRUE", Gs="{8, 9}", Ns="{4}", Flexes="{1, 2}", Kinds="{1}", BadSets="{{}, {3}}")
+        jobs.append(("all interleavings, G in {8,9}, 4 threads, flex in {1,2}", bl_cfg(work, "mcbig", "FairSpec", big, BL_INV, ["Termination"]),
+                     dict(workers=4, timeout=2400, xmx="4g")))
+        pg = list(range(1, 41)) + [47, 48, 49, 63, 64, 65, 96, 127, 128, 129, 200, 255, 256, 257]
+        pn = list(range(1, 18)) + [24, 31, 32, 33, 48, 64]
+        pf = [1, 2, 4, 8, 16, 32, 64]
+    else:
+        pg = list(range(1, 41)) + [64, 65, 129]
+        pn = [1, 2, 3, 4, 5, 7, 8, 16, 17, 32]
+        pf = [1, 2, 4, 16]
+    part = dict(MaxT=64, UseLock="TRUE", Gs=setof(pg), Ns=setof(pn), Flexes=setof(pf), Kinds="{1}", BadSets="{{}}")
+    jobs.append(("partition formula (incl. flex_bg rounding and fall-backs) over %d parameter tuples" % (len(pg) * len(pn) * len(pf) * 2),
+                 bl_cfg(work, "part", "PartOnly", part, ["PartitionExact"]), dict(workers=2, timeout=1800, xmx="3g")))
+    nolock = dict(base); nolock["UseLock"] = "FALSE"
+    with cf.ThreadPoolExecutor(max_workers=2) as ex:
+        futs = [(label, cfg, ex.submit(T.tlc, mod, cfg, **kw)) for label, cfg, kw in jobs]
+        gf = ex.submit(T.tlc, mod, bl_cfg(work, "nolock", "Spec", nolock, BL_INV), workers=1, timeout=600, xmx="2g")
+        for label, cfg, fu in futs:
+            r = fu.result()
+            ev.add_tlc(r, "BitmapLoad: " + label)
+            if r.violated:
+                vd.violation("model:BitmapLoad:" + r.violated, "BitmapLoad (%s): %s violated" % (label, r.violated), {"tlc_tail": r.out[-6000:]})
+            elif not r.ok:
+                die_broken("TLC failed on BitmapLoad (%s): %s\n%s" % (label, r.error, r.out[-1500:]))
+        r = gf.result()
+        if r.violated not in ("MutualExclusion", "LoadedOnce", "ResultScheduleIndependent", "LockHeld"):
+            die_broken("vacuity guard: BitmapLoad without the lock does not violate MutualExclusion (%s / %s)" % (r.violated, r.error))
+        ev.cov.setdefault("deviating_models_rejected", []).append("BitmapLoad UseLock=FALSE -> %s after %d states" % (r.violated, r.distinct))
+
+
+IMG_VARIANTS = [
+    ("plain", ["-O", "^has_journal,^resize_inode,^flex_bg,^uninit_bg"], 256),
+    ("flex2_uninit", ["-O", "^has_journal,^resize_inode,flex_bg,uninit_bg", "-G", "2"], 256),
+    ("flex4_csum", ["-O", "^has_journal,^resize_inode,flex_bg,metadata_csum,extent", "-G", "4"], 256),
+    ("bigalloc", ["-O", "^has_journal,^resize_inode,bigalloc,extent,^flex_bg", "-C", "4096"], 1024),
+]
+THREADS = "2,3,4,7,16"
+
+
+def thread_overlap(tl):
+    """>= 2 threads really overlapping in time: the sequence of Enter events switches between threads more often than
+    a one-after-the-other execution would."""
+    seq = [json.loads(x)["tid"] for x in tl if x.startswith('{"e":"Enter"')]
+    sw = sum(1 for a, b in zip(seq, seq[1:]) if a != b)
+    return len(set(seq)) >= 2 and sw >= len(set(seq))
+
+
+def conformance_threads(ev, vd, tier, work, b, drv):
+    rng = random.Random(seed() + 17)
+    env = tool_env(b)
+    groups = [1, 2, 3, 4, 5, 7, 9, 12, 16, 25, 40] if tier == "quick" else list(range(1, 41))
+    yields = [0, 300] if tier == "quick" else [0, 3, 40, 200, 600, 2000]
+    reps = 1 if tier == "quick" else 3
+    imgdir = os.path.join(work, "img"); os.makedirs(imgdir, exist_ok=True)
+    behaviours, meta = [], []
+    skipped = []
+    for g in groups:
+        for vname, opts, bpg in IMG_VARIANTS:
+            img = os.path.join(imgdir, "g%d_%s.img" % (g, vname))
+            blocks = bpg * g + 1 if bpg == 256 else bpg * g
+            cmd = [os.path.join(b, "misc", "mke2fs"), "-q", "-F", "-o", "Linux", "-b", "1024", "-g", "256", "-N", str(16 * g)] + opts + [img, str(blocks)]
+            p = subprocess.run(cmd, env=env, stdout=subprocess.PIPE, stderr=subprocess.PIPE, timeout=120)
+            if p.returncode != 0:
+                skipped.append("%s G=%d: mke2fs refused (%s)" % (vname, g, p.stderr.decode().strip().splitlines()[-1][:80] if p.stderr.strip() else p.returncode))
+                continue
+            bad = None
+            if g >= 2 and rng.random() < 0.3:
+                bad = rng.randrange(g)
+            for y in yields:
+                tr = os.path.join(work, "bl_trace.ndjson")
+                if os.path.exists(tr):
+                    os.unlink(tr)
+                e2 = dict(env); e2["VERIF_TRACE"] = tr; e2["VERIF_YIELD"] = str(y)
+                cmd = [drv, img, tr, THREADS, str(reps)] + (["badtail=%d" % bad] if bad is not None else [])
+                try:
+                    p = subprocess.run(cmd, env=e2, stdout=subprocess.PIPE, stderr=subprocess.PIPE, timeout=300)
+                except subprocess.TimeoutExpired:
+                    vd.violation("threads:hang", "threaded bitmap load did not finish within 300 s (%s G=%d yield=%d)" % (vname, g, y),
+                                 {"mke2fs": cmd, "image": vname, "groups": g}); continue
+                if p.returncode not in (0, 1):
+                    if p.returncode < 0:
+                        vd.violation("threads:crash", "bmload killed by signal %d (%s G=%d yield=%d)" % (-p.returncode, vname, g, y),
+                                     {"image": vname, "groups": g, "yield": y}); continue
+                    die_broken("bmload failed (%s G=%d): %s" % (vname, g, p.stderr.decode()[-300:]))
+                lines = open(tr).read().splitlines()
+                tb = tracecheck.split_behaviours(lines, lambda s: s.startswith('{"e":"Load"'))
+                want = 1 + reps * len(THREADS.split(","))
+                if len(tb) != want or any(not t[-1].startswith('{"e":"Done"') for t in tb):
+                    die_broken("instrumentation incomplete: %d of %d loads logged completely (%s G=%d)" % (len(tb), want, vname, g))
+                for t in tb:
+                    behaviours.append(t)
+                    meta.append({"image": vname, "groups": g, "yield": y, "badtail": bad, "mke2fs_opts": opts, "load": json.loads(t[0])})
+    if not behaviours:
+        die_broken("no image could be built for the threaded bitmap loading part")
+    mod = os.path.join(SPEC, "Trace_BitmapLoad.tla"); cfg = os.path.join(SPEC, "Trace_BitmapLoad.cfg")
+    res = tracecheck.validate(behaviours, mod, cfg, work, chunk_lines=4000, jobs=WORKERS, timeout=1200)
+    if res["broken"]:
+        die_broken("TLC failed on a BitmapLoad trace chunk: %s\n%s" % (res["broken"][0]["error"], res["broken"][0]["out_tail"][-1500:]))
+    ev.cov["states"] += res["distinct"]; ev.cov["transitions"] += res["generated"]
+    nfail = 0
+    for f in res["failures"]:
+        bi = f["behaviour"]
+        rej, matched, inv, tail, _ = tracecheck.confirm(behaviours[bi], mod, cfg, work)
+        if not rej:
+            continue
+        nfail += 1
+        k = matched if matched is not None else 0
+        line = behaviours[bi][k] if k < len(behaviours[bi]) else "(end)"
+        opname = json.loads(line)["e"] if line != "(end)" else "?"
+        whatv = ("invariant %s violated" % inv) if inv else "trace rejected"
+        vd.violation("threads:%s@%s" % (whatv, opname), "threaded bitmap load: %s at event %d (%s) -- %s" % (whatv, k, line[:200], json.dumps(meta[bi])[:300]),
+                     {"meta": meta[bi], "trace": behaviours[bi], "first_unmatched_line": k, "tlc_tail": tail[-1500:]})
+    ev.cov["traces_validated_against_impl"] += len(behaviours) - nfail
+    ev.cov["evaluations"] += len(behaviours)
+    ev.cov["threaded_loads"] = sum(1 for m in meta if m["load"]["nreq"] > 1)
+    ev.cov["thread_events_validated"] = sum(len(t) for t in behaviours)
+    nover = 0
+    for t, m in zip(behaviours, meta):
+        if thread_overlap(t):
+            nover += 1
+            ev.nontrivial("thr:%s:%d:%d:%d:%s" % (m["image"], m["groups"], m["load"]["nreq"], m["yield"], hashlib.sha1("".join(t).encode()).hexdigest()[:12]))
+    ev.cov["threaded_loads_with_overlapping_threads"] = nover
+    ev.cov["images_skipped"] = skipped
+    i0 = next((i for i, m in enumerate(meta) if m["load"]["nreq"] == 3 and m["groups"] >= 7), 0)
+    ev.sample({"threaded_load": meta[i0], "first_events": [json.loads(x) for x in behaviours[i0][:8]]})
+
+
 def run(tier):
     ev = Evidence(PID, tier, "model_checking")
     vd = Verdict(PID, ev)
@@ -390,8 +546,14 @@ def run(tier):
             die_broken(str(e))
         if not os.path.exists(IOTRACE):
             die_broken("harness/iotrace.so missing (make -C /verif/harness)")
+        try:
+            bml = build.driver(b, "bmload")
+        except RuntimeError as e:
+            die_broken(str(e))
         model_check_cache(ev, vd, tier, work)
         conformance_cache(ev, vd, tier, work, drv)
+        model_check_threads(ev, vd, tier, work)
+        conformance_threads(ev, vd, tier, work, b, bml)
         ev.cov["rule"] = ("cache: seeded histories of ~%d calls over 10 channel configurations on a 24 KiB backing file (granule 512 B; block sizes 1k/2k/4k; "
                           "counts 1..6 and byte-count form; write_byte, zeroout, discard, readahead, flush, close/reopen, cache off/on around read-only phases), "
                           "about a quarter of them with 1..4 consecutive failing write(2)/pwrite(2) calls; non-trivial = >=1 dirty eviction and >=1 cache-bypassing "
